@@ -124,6 +124,11 @@ func (t *mixedTable) next(k Value) (next Value, v Value, ok bool) {
 		isInt = true
 	} else {
 		i, isInt = ToIntNoString(k)
+		if isInt && i == 0 {
+			// 0 is a key of the hash part, it must not be mistaken for the
+			// start of the array part.
+			return t.hashTable.next(IntValue(0))
+		}
 	}
 	if isInt {
 		j, v, ok := t.array.next(i)
